@@ -13,6 +13,61 @@ use std::sync::Arc;
 pub struct Written {
     /// name → (stored value, lineage id of the field name at write time)
     pub fields: BTreeMap<String, (FieldValue, u64)>,
+    /// name → nested key paths that some upgrade *after this document was written* removed
+    pub retired: BTreeMap<String, BTreeSet<String>>,
+}
+
+/// Every explicitly keyed map key of a type, as a path (`?` option, `[]` array element, `[i]`
+/// tuple position, `*` homogeneous map value, `<key>` declared key).
+pub fn key_paths(ft: &FieldType, path: &str, out: &mut BTreeSet<String>) {
+    match ft {
+        FieldType::Option(t) => key_paths(t, path, out),
+        FieldType::Array(ts) if ts.len() == 1 => key_paths(&ts[0], &format!("{path}/[]"), out),
+        FieldType::Array(ts) => ts.iter().enumerate().for_each(|(i, t)| key_paths(t, &format!("{path}/[{i}]"), out)),
+        FieldType::Map(m) => {
+            if let Some((_, t)) = crate::r#gen::is_wildcard(m) {
+                key_paths(t, &format!("{path}/*"), out);
+            } else {
+                for (k, t) in m {
+                    let p = format!("{path}/{}", crate::wire::key_tok(k));
+                    out.insert(p.clone());
+                    key_paths(t, &p, out);
+                }
+            }
+        }
+        _ => {}
+    }
+}
+
+/// Drops the entries of a value that sit at one of the `retired` key paths.
+pub fn drop_retired(ft: &FieldType, v: &FieldValue, path: &str, retired: &BTreeSet<String>) -> FieldValue {
+    use FieldType as T;
+    use FieldValue as V;
+    match (ft, v) {
+        (T::Option(t), v) if *v != V::Null => drop_retired(t, v, path, retired),
+        (T::Array(ts), V::Array(xs)) if ts.len() == 1 => V::Array(xs.iter().map(|x| drop_retired(&ts[0], x, &format!("{path}/[]"), retired)).collect()),
+        (T::Array(ts), V::Array(xs)) if ts.len() >= 2 => {
+            V::Array(xs.iter().enumerate().map(|(i, x)| ts.get(i).map_or(x.clone(), |t| drop_retired(t, x, &format!("{path}/[{i}]"), retired))).collect())
+        }
+        (T::Map(m), V::Map(vals)) if !m.is_empty() => {
+            if let Some((_, t)) = crate::r#gen::is_wildcard(m) {
+                V::Map(vals.iter().map(|(k, x)| (k.clone(), drop_retired(t, x, &format!("{path}/*"), retired))).collect())
+            } else {
+                V::Map(
+                    vals.iter()
+                        .filter_map(|(k, x)| {
+                            let p = format!("{path}/{}", crate::wire::key_tok(k));
+                            if retired.contains(&p) {
+                                return None;
+                            }
+                            Some((k.clone(), m.get(k).map_or(x.clone(), |t| drop_retired(t, x, &p, retired))))
+                        })
+                        .collect(),
+                )
+            }
+        }
+        (_, v) => v.clone(),
+    }
 }
 
 #[derive(Default)]
@@ -194,7 +249,8 @@ impl State {
                         if let Err(why) = oracle::field_conforms(&ft, &stored, false) {
                             r.failures.push((format!("typed-accepts-invalid:{why}"), "Document::try_from stored a value that violates its declared type".into(), format!("err ({why})"), show_value(&stored)));
                         } else if let Err(why) = oracle::field_conforms(&ft, &stored, true) {
-                            r.failures.push((format!("typed-not-declared-variant:{why}"), "Document::try_from stored a value that is not in the declared variant".into(), "declared variant".into(), show_value(&stored)));
+                            // an absent Json-typed key is the recorded finding F1 (same root cause)
+                            r.failures.push((if why.ends_with("@Json") { "json-field-holds-non-json".to_string() } else { format!("typed-not-declared-variant:{why}") }, "Document::try_from stored a value that is not in the declared variant".into(), "declared variant".into(), show_value(&stored)));
                         }
                         // accepted on write ⇒ accepted on read, unchanged
                         let mut buf = Vec::new();
@@ -277,6 +333,20 @@ impl State {
                             }
                         }
                         let _ = old_lineage;
+                        // nested keys this upgrade removes are retired for every document written so far
+                        for (n, _, t) in &fields {
+                            if let Some((ot, _)) = self.declared.get(n) {
+                                let (mut before, mut after) = (BTreeSet::new(), BTreeSet::new());
+                                key_paths(ot, "", &mut before);
+                                key_paths(t, "", &mut after);
+                                let gone: Vec<String> = before.difference(&after).cloned().collect();
+                                if !gone.is_empty() {
+                                    for w in &mut self.written {
+                                        w.retired.entry(n.clone()).or_default().extend(gone.iter().cloned());
+                                    }
+                                }
+                            }
+                        }
                         self.declare(&fields, &new, ver);
                         self.schema = Some(Arc::new(new));
                         Some(r)
@@ -331,7 +401,7 @@ impl State {
                 r.nontrivial = true;
                 r.hits.push(format!("{op}:ok"));
                 // nothing invalid gets in: every stored field conforms, every required field is there
-                let mut w = Written { fields: BTreeMap::new() };
+                let mut w = Written { fields: BTreeMap::new(), retired: BTreeMap::new() };
                 for f in schema.iter() {
                     match doc.get_field(f.name()) {
                         Some(v) => {
@@ -356,7 +426,11 @@ impl State {
                     return None;
                 }
                 let schema = self.schema.clone()?;
-                let bytes = self.docs.get(k)?;
+                let Some(bytes) = self.docs.get(k) else {
+                    let mut r = out("nodoc");
+                    r.hits.push("get:nodoc".into());
+                    return Some(r);
+                };
                 let w = self.written[k].clone();
                 // the document was complete when written?  (set_field does not check required fields)
                 let owned: DocumentOwned = match cbor2::from_reader(&bytes[..]) {
@@ -373,9 +447,15 @@ impl State {
                         r.hits.push("get:err:read".into());
                         // legitimate only when a field required *now* was never written (incomplete put)
                         let incomplete = schema.iter().any(|f| f.required() && !w.fields.contains_key(f.name()));
+                        // a nested key that was removed after the document was written is declared again
+                        let readded = schema.iter().any(|f| {
+                            let mut now = BTreeSet::new();
+                            key_paths(f.r#type(), "", &mut now);
+                            w.retired.get(f.name()).is_some_and(|gone| gone.iter().any(|p| now.contains(p)))
+                        });
                         if !incomplete {
                             r.failures.push((
-                                "old-document-unreadable".into(),
+                                if readded { "nested-key-readded:old-document-unreadable".into() } else { "old-document-unreadable".into() },
                                 "a document accepted under an earlier (or the same) schema is rejected on read".into(),
                                 "readable".into(),
                                 format!("{e}"),
@@ -394,8 +474,17 @@ impl State {
                                 Some((v, wl)) if *wl == lid => {
                                     // surviving field: unchanged (minus removed nested keys)
                                     let want = expected_under(f.r#type(), v);
+                                    let empty = BTreeSet::new();
+                                    let gone = w.retired.get(f.name()).unwrap_or(&empty);
+                                    let want_clean = drop_retired(f.r#type(), &want, "", gone);
                                     match got {
-                                        Some(g) if oracle::same_declared(f.r#type(), &want, g) => {}
+                                        Some(g) if oracle::same_declared(f.r#type(), &want_clean, g) => {}
+                                        Some(g) if oracle::same_declared(f.r#type(), &want, g) => r.failures.push((
+                                            "nested-key-readded:stale-value-resurrected".into(),
+                                            "a value written under a nested key that was removed shows up under the key declared again later".into(),
+                                            format!("{}={}", f.name(), show_value(&want_clean)),
+                                            format!("{}={}", f.name(), show_value(g)),
+                                        )),
                                         other => r.failures.push((
                                             "surviving-field-changed".into(),
                                             "a field that survived every upgrade does not read back as written".into(),
